@@ -150,7 +150,30 @@ def _grid_cases():
             return calls
         return c
 
-    return {"Grid._connect_single_cell_2d": (gen(2), call(2)), "Grid._connect_single_cell_nd": (gen("n"), call("n")),
+    def gen_cells2(rng):
+        dims = [rng.choice([1, 2, 3, 4, 5]), rng.choice([1, 2, 3, 4])]
+        g = grid(dims, False)
+        return {"self": {"dimensions": dims, "all_cells": [{"coordinate": tuple(c.coordinate)} for c in g.all_cells]}}
+
+    def call_cells2(klass_name):
+        def c(a):
+            import mesa.discrete_space as ds
+            base = getattr(ds, klass_name)
+            calls = []
+
+            class Rec(base):
+                def _connect_single_cell_2d(self, cell, offsets):
+                    calls.append(({"coordinate": tuple(cell.coordinate)}, [tuple(o) for o in offsets]))
+                    super()._connect_single_cell_2d(cell, offsets)
+
+            g = Rec(tuple(a["self"]["dimensions"]), torus=False, random=random.Random(0))
+            del calls[:]
+            base._connect_cells_2d(g)
+            return calls
+        return c
+
+    two_d = {f"{k}._connect_cells_2d": (gen_cells2, call_cells2(k)) for k in ("OrthogonalMooreGrid", "OrthogonalVonNeumannGrid", "HexGrid")}
+    return {**two_d, "Grid._connect_single_cell_2d": (gen(2), call(2)), "Grid._connect_single_cell_nd": (gen("n"), call("n")),
             "OrthogonalMooreGrid._connect_cells_nd": (gen_cells, call_cells("OrthogonalMooreGrid")),
             "OrthogonalVonNeumannGrid._connect_cells_nd": (gen_cells, call_cells("OrthogonalVonNeumannGrid"))}
 
